@@ -247,11 +247,27 @@ Fixpoint feed {T} (add : ist -> T -> option ist) (s : ist) (calls : list T) : op
     end
   end.
 
-Definition with_header {A} (h : A) (calls : list (list A * list A)) : list (list A * list A) :=
-  match calls with
+(* The heading row is appended to both traces when rank K is registered, i.e. when the first
+   intersection starts: it is part of the first batch that follows at least one intersection.
+   Batches consumed before that (a flush at the top of the loop body, a first iteration that
+   skips the inner loop) are empty lists -- they do not even hold the heading row. *)
+Fixpoint calls_from (h : option row) (rowsf : list fpair -> list row * list row)
+                    (segs : list (list fpair)) : list (list row * list row) :=
+  match segs with
   | [] => []
-  | (c0, c1) :: calls' => (h :: c0, h :: c1) :: calls'
+  | seg :: segs' =>
+    match seg, h with
+    | _ :: _, Some hd =>
+      (hd :: fst (rowsf seg), hd :: snd (rowsf seg)) :: calls_from None rowsf segs'
+    | _, _ => rowsf seg :: calls_from h rowsf segs'
+    end
   end.
+
+(* number of leading empty batches; the batches from the first non-empty one on *)
+Fixpoint lead_n (segs : list (list fpair)) : nat :=
+  match segs with [] :: segs' => S (lead_n segs') | _ => O end.
+Fixpoint drop_lead (segs : list (list fpair)) : list (list fpair) :=
+  match segs with [] :: segs' => drop_lead segs' | _ => segs end.
 
 Definition depth_of (fs : list fpair) : nat :=
   match fs with [] => O | p :: _ => length (f_id p) end.
@@ -260,7 +276,7 @@ Definition depth_of (fs : list fpair) : nat :=
    the traces were consumed and handed to the models *)
 Definition calls_of (all : list (list Z)) (d : nat) (segs : list (list fpair))
   : list (list row * list row) :=
-  with_header (header d) (map (batch_rows all) segs).
+  calls_from (Some (header d)) (batch_rows all) segs.
 
 Definition tf_feed all d segs := feed tf_add ist0 (calls_of all d segs).
 Definition sa_feed all d segs := feed sa_add ist0 (calls_of all d segs).
@@ -292,7 +308,7 @@ Definition lfs_batch_rows (all : list (list Z)) (seg : list fpair) : list row * 
 
 Definition lfs_calls_of (all : list (list Z)) (d : nat) (segs : list (list fpair))
   : list (list row * list row) :=
-  with_header (header d) (map (lfs_batch_rows all) segs).
+  calls_from (Some (header d)) (lfs_batch_rows all) segs.
 
 Definition lfs_feed (side : bool) all d segs :=
   feed (fun s c => Some (lf_add s c)) ist0
